@@ -450,6 +450,7 @@ func TestLibStreamDecoderRandomBytes(t *testing.T) {
 	rng := rand.New(rand.NewSource(6))
 	interesting := []byte{0, 1, 66, 98, 128, 129, 130, 229, 230, 231, 232, 233, 234, 235, 236, 237, 238, 239, 240, 241, 242, 254, 255, 31, 124, 91, 11}
 	tally := map[string]int{}
+	example := map[string]string{}
 	diffs := 0
 	for iter := 0; iter < 200000; iter++ {
 		n := 1 + rng.Intn(8)
@@ -491,7 +492,19 @@ func TestLibStreamDecoderRandomBytes(t *testing.T) {
 		case errors.Is(err, ErrUnsupported):
 			tally["model unsupported, library accepts"]++
 		default:
-			tally["model invalid, library accepts"]++
+			// group by the model's reason with the numbers removed
+			reason := strings.TrimPrefix(err.Error(), ErrInvalid.Error()+": ")
+			reason = strings.Map(func(r rune) rune {
+				if r >= '0' && r <= '9' {
+					return -1
+				}
+				return r
+			}, reason)
+			key := "model invalid, library accepts: " + reason
+			tally[key]++
+			if ex, ok := example[key]; !ok || len(cw) < len(ex) {
+				example[key] = fmt.Sprintf("%v -> library %q", cw, lib)
+			}
 		}
 	}
 	keys := []string{}
@@ -500,7 +513,10 @@ func TestLibStreamDecoderRandomBytes(t *testing.T) {
 	}
 	sort.Strings(keys)
 	for _, k := range keys {
-		t.Logf("%-45s %d", k, tally[k])
+		t.Logf("%6d  %s", tally[k], k)
+		if ex, ok := example[k]; ok {
+			t.Logf("            e.g. %s", ex)
+		}
 	}
 	if diffs > 0 {
 		t.Logf("%d disagreements on streams the model accepts", diffs)
